@@ -27,8 +27,9 @@ Definition jmem {V} (k : string) (l : list (string * V)) : bool :=
 (* ---- numbers ---- *)
 Definition Qlt_bool (a b : Q) : bool := negb (Qle_bool b a).
 Definition q_is_int (q : Q) : bool := Z.eqb (Qnum q mod Zpos (Qden q)) 0.
-(* x is a multiple of m (m <> 0): x / m is an integer *)
-Definition q_multiple_of (x m : Q) : bool := q_is_int (x / m).
+(* x is a multiple of m: x = z * m for an integer z *)
+Definition q_multiple_of (x m : Q) : bool :=
+  if Qeq_bool m 0 then Qeq_bool x 0 else q_is_int (x / m).
 
 (* ---- JSON equality: numbers by value, arrays pointwise, objects as finite maps ---- *)
 Fixpoint json_eqb (a b : json) {struct a} : bool :=
